@@ -64,6 +64,21 @@ pub fn gen_rw_run(check: &str, seed: u64, tier: Tier) -> Run {
         };
         run.ops.push(Op::new("add").t(t));
     }
+    if w.chance(1, 10) {
+        // a near-instance of the rule with a repeated free pattern slot: (a + x) - y with x != y must
+        // not be matched by (?0 + $s) - $s (the slot map of a match has to be injective)
+        let ri = pool.iter().position(|r| r.name == "add-sub-var").unwrap();
+        seeded_rules.push(ri as i64);
+        let a = random_la(&mut w, &user, 1, &mut binder);
+        let (x, y) = if w.chance(1, 2) { (0, 1) } else { (1, 0) };
+        let inner = if w.chance(1, 2) {
+            Tm::node("add", vec![], vec![(vec![], a), (vec![], Tm::leaf("var", vec![x]))])
+        } else {
+            Tm::node("add", vec![], vec![(vec![], Tm::leaf("var", vec![x])), (vec![], a)])
+        };
+        let t = Tm::node("add", vec![], vec![(vec![], inner), (vec![], Tm::node("neg", vec![], vec![(vec![], Tm::leaf("var", vec![y]))]))]);
+        run.ops.push(Op::new("add").t(t));
+    }
     if w.chance(1, 6) {
         // two instances of the eq-conditioned rule in one e-graph: one where the condition holds
         // (a - a) and one where the two bindings are the same class invoked with swapped
